@@ -37,9 +37,9 @@ var MutationKinds = []string{
 	"ref-field-type", "ref-arg-type", "ref-inputfield-type", "ref-dirarg-type", "ref-union-member", "ref-interface", "ref-directive-on-type", "ref-directive-on-field", "ref-directive-on-enumvalue",
 	// R2 names unique, well-formed, not reserved
 	"dup-type", "dup-field", "dup-arg", "dup-enum-value", "dup-input-field", "dup-directive",
-	"reserved-type", "reserved-field", "reserved-arg", "reserved-enum-value", "reserved-input-field", "reserved-directive", "digit-type-name", "digit-field-name", "enum-value-keyword",
+	"reserved-type", "reserved-field", "reserved-arg", "reserved-enum-value", "reserved-input-field", "reserved-directive", "digit-type-name", "digit-field-name", "enum-value-keyword", "schema-unknown-operation",
 	// R3 output / input positions
-	"field-returns-input", "arg-takes-output", "inputfield-takes-output", "dirarg-takes-output",
+	"field-returns-input", "arg-takes-output", "inputfield-takes-output", "dirarg-takes-output", "schema-root-input-type",
 	// R4 interface conformance
 	"iface-missing-field", "iface-wrong-type", "iface-missing-arg", "iface-extra-required-arg", "iface-arg-type-mismatch", "implements-non-interface",
 	// R5 unions
@@ -57,6 +57,10 @@ func ruleOf(kind string) string {
 	switch {
 	case len(kind) > 4 && kind[:4] == "ref-":
 		return "R1"
+	case kind == "schema-unknown-operation":
+		return "R2"
+	case kind == "schema-root-input-type":
+		return "R3"
 	case kind[:3] == "dup" || kind[:3] == "res" || kind[:3] == "dig" || kind == "enum-value-keyword":
 		return "R2"
 	case kind == "field-returns-input" || kind == "arg-takes-output" || kind == "inputfield-takes-output" || kind == "dirarg-takes-output":
@@ -495,6 +499,24 @@ func Mutate(t *rapid.T, base *hx.Schema, kind string) (s *hx.Schema, m Mutation,
 		x := others[pick(len(others), "other")]
 		u.Members = append(u.Members, x)
 		m.Names, m.Position = []string{x, u.Name}, "union"
+	case "schema-root-input-type":
+		// an operation root that is an input object, added to the (written or implied) schema by an extension
+		ins := kindsOf(s, hx.KInput)
+		op := ""
+		for _, o := range []string{"subscription", "mutation"} {
+			if s.RootType(o) == "" {
+				op = o
+			}
+		}
+		if len(ins) == 0 || op == "" {
+			return nil, m, false
+		}
+		in := ins[pick(len(ins), "in")].Name
+		m.Tail = "extend schema {\n  " + op + ": " + in + "\n}"
+		m.Names, m.Position = []string{op, in}, "schema"
+	case "schema-unknown-operation":
+		m.Tail = "extend schema {\n  foo: " + s.RootType("query") + "\n}"
+		m.Names, m.Position = []string{"foo"}, "schema"
 	case "union-empty":
 		m.Tail = "union Uempty ="
 		m.Names, m.Position = []string{"Uempty"}, "union"
